@@ -144,6 +144,9 @@ func getters(c *mon.Ctx, tag string, x ebp.EncoderBoundaryPoint, e *ref.EBP, in 
 	return ok
 }
 
+// keptEBPs: decoded EBPs that are looked at again after many later ones were decoded.
+var keptEBPs mon.Keeper
+
 func decode(c *mon.Ctx, e *ref.EBP) {
 	in := e.Bytes()
 	in = gen.SlackBy(in, gen.HashString(string(in)))
@@ -175,6 +178,16 @@ func decode(c *mon.Ctx, e *ref.EBP) {
 	}
 	if !getters(c, "decode", x, e, snap) {
 		return
+	}
+	if h := gen.HashString(string(snap)); h%4 == 0 {
+		// an object of its own is kept and looked at again after 1 ... 4095 later EBPs were decoded
+		if xk, err := ebp.ReadEncoderBoundaryPoint(append([]byte{}, snap...)); err == nil && xk != nil {
+			truth := *e
+			keptEBPs.Keep(c, "decoded EBP", gen.New(h, 5), func() string {
+				getters(c, "decode:object-kept-across-many-later-decodes", xk, &truth, snap)
+				return ""
+			})
+		}
 	}
 	out := x.Data()
 	if !bytes.Equal(out, snap) {
@@ -491,6 +504,7 @@ func run(c *mon.Ctx) {
 	c.Assume("EBP bodies go up to the 255 bytes the length byte can announce; the library's flag setters are set-only so built objects never clear a flag; EBPSuccessReadTime (wall clock) is ignored")
 	per := c.N(12, 20000)
 	c.Exhaustive("all 256 flag bytes x both flavours", 512)
+	c.Floor("kept.decoded EBP.looked_at_again_after_64_or_more_later_objects", 60)
 	c.Floor("decoded_then_flavour_setter", 500)
 	c.Floor("decode_from_the_same_buffer_refilled_with_the_next_ebp", 2000)
 	c.Floor("time.instant_given_in_another_location", 3000)
